@@ -5,6 +5,7 @@ package main
 
 import (
 	"fmt"
+	"os"
 	"go/ast"
 	"go/token"
 	"go/types"
@@ -296,8 +297,10 @@ func (fc *FnCtx) siteScope(s *CallSite, env, old *Env) *Scope {
 func (fc *FnCtx) doCall(x *ssa.Call) {
 	com := x.Common()
 	if b, ok := com.Value.(*ssa.Builtin); ok {
-		if fc.doBuiltin(x, b) {
-			return
+		if len(fc.siteSpecs(x)) == 0 {
+			if fc.doBuiltin(x, b) {
+				return
+			}
 		}
 	}
 	s := fc.buildSite(x)
@@ -324,8 +327,14 @@ func (fc *FnCtx) doCall(x *ssa.Call) {
 			pure = true
 		}
 	}
-	fc.dispatchCall(s, pure)
-	fc.setCallValue(x, s)
+	if b, ok := com.Value.(*ssa.Builtin); ok && fc.doBuiltin(x, b) {
+		if v := fc.vals[x]; v.isT {
+			s.results = []Term{v.T}
+		}
+	} else {
+		fc.dispatchCall(s, pure)
+		fc.setCallValue(x, s)
+	}
 	for _, cs := range specs {
 		if len(cs.Ensures) > 0 || len(cs.Sets) > 0 {
 			sc := fc.siteScope(s, fc.env, pre)
@@ -393,6 +402,9 @@ func (fc *FnCtx) dispatchCall(s *CallSite, pure bool) {
 	// 3. function of the repository without a contract: havoc its write set
 	if s.callee != nil && len(s.callee.Blocks) > 0 && strings.HasPrefix(qualifiedName(s.callee), repoModule) {
 		ws := fc.funcWrites(s.callee, 0)
+		if os.Getenv("GOVC_DEBUG") != "" {
+			fmt.Fprintf(os.Stderr, "DEBUG writes of %s: all=%v %v\n", s.display, ws.All, ws.sorted())
+		}
 		fc.applyWriteSet(ws)
 		fc.freshResults(s)
 		fc.eng.noteUncontracted(fc.name, s.display)
@@ -822,6 +834,11 @@ func (fc *FnCtx) doRunDefers(x *ssa.RunDefers) {
 
 func (fc *FnCtx) doReturn(x *ssa.Return) {
 	fc.counters["return"]++
+	for _, li := range fc.loopList {
+		if li.Spec != nil && li.Spec.Exhaustive && li.Blocks[x.Block()] {
+			fc.assert("exhaustive", fmt.Sprintf("%s:loop%d.noearlyexit#%d", fc.name, li.Ord, fc.nextCount(fmt.Sprintf("ex%d", li.Ord))), FalseT, "no return from inside the loop", x.Pos(), false)
+		}
+	}
 	if fc.contract == nil || len(fc.contract.Ensures) == 0 {
 		return
 	}
